@@ -731,10 +731,11 @@ class AcceptApiStream(NegotiationStream):
 
 CHECK = Check(
     prop="C17",
-    gen=["AcceptTbl", "AcceptApi", "PyFns_Accept"],
-    modules=["WzVerif.Props.C17", "WzVerif.Props.C17T", "WzVerif.Props.C17T2"],
+    gen=["AcceptTbl", "AcceptApi", "PyFns_Accept", "Http", "PyFns_Http", "PyFns_Internal", "PyFns_HttpDict", "PyFns_HttpOptions"],
+    modules=["WzVerif.Props.C17", "WzVerif.Props.C17T", "WzVerif.Props.C17T2", "WzVerif.Props.C17T3"],
     streams=[NegotiationStream(), AcceptApiStream(), PreludeKernels()],
     assumptions=[
+        "C17T3 (parse_accept_header as regenerated from the source): the float comparison 'q < 0 or q > 1' is modelled as an abstract order on the quality type; instantiated with exact signed decimals it coincides with CPython's float check except in the two rounding bands (q = 1 + eps <= 2^-53, negative magnitude <= 2^-1075) - oor_snap_imp is the proved direction",
         "round 3 (Props/C17T2): Accept._specificity / _value_matches, MIMEAccept._specificity / _value_matches (with _normalize_mime; sorted() of the parameter lists = the model's permutation test), LanguageAccept._value_matches (with _normalize_lang), CharsetAccept._value_matches (nested _normalize; the codec registry is a parameter), Accept.values, best, to_header (float printing as a parameter agreeing with the model's qRepr), __getitem__(str), MIMEAccept.accept_html / accept_xhtml / accept_json are regenerated from the source by tools/py2lean.py (Gen/PyFns_Accept.lean) and proved equal to the fields of acceptNeg / mimeNeg / langNeg / charsetNeg and to the model's accessor functions for all inputs (incl. exactly when MIMEAccept raises ValueError); the regexes _mime_split_re / _locale_delim_re enter as the model's mimeSplit / splitLang with their pattern sources pinned",
         "Accept._best_single_match / quality / __contains__ / index / find / best_match and LanguageAccept.best_match are regenerated from the source by tools/py2lean.py (Gen/PyFns_Accept.lean) on every run and proved equal to the hand model for all inputs (Props/C17T; the class-specific _specificity / _value_matches and the orders are the fields of the model's Neg structure, Accept(...) is the model's stable sort, the -1 sentinels are parameters assumed <= 0); bestMatch_optimal and lang_zero_never_chosen are restated on the translated loops",
         "float() of a string matched by _q_value_re and float comparison agree with exact decimal arithmetic (q literals below 14 characters; validated by the stream, longer literals are outside the model)",
@@ -743,7 +744,7 @@ CHECK = Check(
         "urllib.request.parse_http_list, parse_options_header (without RFC 2231 key*= values), dump_options_header and the two regex splits are hand-modelled and validated by the stream",
         "sorted(a) == sorted(b) on parameter lists is modelled as multiset equality (List.isPerm)",
         "Request.accept_* (header read, class built), the media types of MIMEAccept.accept_html/xhtml/json and the set of methods each Accept class overrides are read from the AST / class dicts into Gen/AcceptApi.lean and pinned by decide (request_attr_table, mime_flag_table, class_overrides_table)",
-        "repr(float) of a quality is modelled as the shortest positional decimal (0.0 for zero); qualities below 1e-4 print in exponent notation and are outside the model (to_header_normal_form is proved for qualities that reprint, all RFC three-decimal qvalues by decide)",
+        "repr(float) of a quality is modelled as the shortest positional decimal (0.0 for zero); qualities below 1e-4 print in exponent notation and are outside the model; quality_reprints proves for every q <= 1 printable in positional notation that the text re-parses to the same number (core Nat.toDigits lemmas), to_header_normal_form / to_header_normal_form_params give the parse(to_header) normal form without and with parameters",
         "known finding F17b: an element whose q parameter is not a token (`;q=`, `;q= 0.5`, `;q =0.5`) keeps q=1 instead of being ignored; invalid_q_ignored is proved for token q texts (header level) and for q parameters that survive parse_options_header, the full-strength negation is proved",
     ],
     trusted_extra=["CPython re / str / float / sorted semantics for the modelled primitives (validated by the stream, not verified)"],
